@@ -77,7 +77,9 @@ Ideal(s, ds, t) == Eval(t, ds[t], Inputs(s, ds, t))
 \* a repository is valid when no filegroup collects the same source file twice (plz rejects duplicate outputs)
 SrcNames(items) == [i \in 1..Len(items) |-> IF items[i].kind = "src" THEN items[i].f ELSE "-"]
 NoDupSrc(items) == \A i, j \in 1..Len(items) : (i < j /\ items[i].kind = "src" /\ items[j].kind = "src") => items[i].f # items[j].f
-Valid(s, ds) == \A t \in DOMAIN ds : ds[t].kind = "fg" => NoDupSrc(Flat(Inputs(s, ds, t)))
+\* ... nor the same output of a target twice (directly and through a nested filegroup)
+NoDupItems(items) == \A i, j \in 1..Len(items) : i < j => NameOf(items[i]) # NameOf(items[j])
+Valid(s, ds) == \A t \in DOMAIN ds : ds[t].kind = "fg" => (NoDupSrc(Flat(Inputs(s, ds, t))) /\ NoDupItems(Flat(Inputs(s, ds, t))))
 
 RECURSIVE Closure(_, _)
 Closure(ds, t) == {t} \cup UNION {Closure(ds, d) : d \in ds[t].deps}
